@@ -25,7 +25,6 @@ import (
 // ("the file exists on disk"), the merger (first value wins).
 
 type verifOBWorld struct {
-	disk     map[table.FileNumber]bool
 	removed  []table.FileNumber
 	current  version.Version
 	nextFile int64
@@ -62,38 +61,18 @@ func (s *verifOBSnapshot) GetCurrent() version.Version { return s.current }
 func (s *verifOBSnapshot) Close()                      {}
 func (s *verifOBSnapshot) GetReader(n table.FileNumber) (table.Reader, error) {
 	verifYield()
-	if !s.w.disk[n] {
+	if !s.w.onDisk(n) {
 		return nil, fmt.Errorf("open %s: no such file", version.Table(n))
 	}
-	for _, fm := range s.current.GetAllFiles() {
-		if fm.GetFileNumber() == n {
-			return &verifOBReader{key: fm.GetMinKey()}, nil
-		}
-	}
-	return nil, fmt.Errorf("table %s is not part of the snapshot", version.Table(n))
+	return table.VerifOpenReader(verifOBFile(n))
 }
 
-type verifOBReader struct {
-	table.Reader
-	key uint32
-}
+func verifOBFile(n table.FileNumber) string { return verifOBPath + "/" + version.Table(n) }
 
-func (r *verifOBReader) Iterator() table.Iterator { return &verifOBIterator{key: r.key} }
-
-type verifOBIterator struct {
-	key  uint32
-	done bool
+func (w *verifOBWorld) onDisk(n table.FileNumber) bool {
+	_, ok := table.VerifFiles[verifOBFile(n)]
+	return ok
 }
-
-func (it *verifOBIterator) HasNext() bool {
-	if it.done {
-		return false
-	}
-	it.done = true
-	return true
-}
-func (it *verifOBIterator) Key() uint32   { return it.key }
-func (it *verifOBIterator) Value() []byte { return []byte{1} }
 
 type verifOBStore struct {
 	Store
@@ -121,42 +100,7 @@ func (s *verifOBStore) commitFamilyEditLog(_ string, e version.EditLog) error {
 	return err
 }
 
-type verifOBBuilder struct {
-	table.Builder
-	w      *verifOBWorld
-	n      table.FileNumber
-	count  uint64
-	min    uint32
-	max    uint32
-	closed bool
-}
-
 var verifOBW *verifOBWorld
-
-// stands in for table.NewStoreBuilder: creating the builder creates the file
-func verifOBNewBuilder(fileNumber table.FileNumber, _ string) (table.Builder, error) {
-	verifYield()
-	verifOBW.disk[fileNumber] = true
-	return &verifOBBuilder{w: verifOBW, n: fileNumber}, nil
-}
-func (b *verifOBBuilder) FileNumber() table.FileNumber { return b.n }
-func (b *verifOBBuilder) Add(key uint32, _ []byte) error {
-	if b.count == 0 {
-		b.min = key
-	}
-	b.max = key
-	b.count++
-	return nil
-}
-func (b *verifOBBuilder) MinKey() uint32 { return b.min }
-func (b *verifOBBuilder) MaxKey() uint32 { return b.max }
-func (b *verifOBBuilder) Size() uint32   { return uint32(b.count) * 10 }
-func (b *verifOBBuilder) Count() uint64  { return b.count }
-func (b *verifOBBuilder) Close() error   { b.closed = true; return nil }
-func (b *verifOBBuilder) Abandon() error {
-	b.w.disk[b.n] = false
-	return nil
-}
 
 type verifOBMerger struct{ flusher Flusher }
 
@@ -168,24 +112,27 @@ func (m *verifOBMerger) Merge(key uint32, values [][]byte) error {
 const verifOBPath = "/data/db/shard/1/segment/day/20190702/13"
 
 func verifOBSetup() (*verifOBWorld, *family) {
-	w := &verifOBWorld{disk: map[table.FileNumber]bool{}, current: version.VerifNewVersion(), nextFile: 10}
+	w := &verifOBWorld{current: version.VerifNewVersion(), nextFile: 10}
 	verifOBW = w
+	// the real store builder / stream writer / table reader over in-memory files (kv/table seam)
+	table.VerifInstallWriter()
+	table.VerifOnCreate = func(string) { verifYield() }
 	listDirFunc = func(dir string) ([]string, error) {
 		verifYield()
 		var names []string
-		for n, ok := range w.disk {
-			if ok {
-				names = append(names, version.Table(n))
+		for name := range table.VerifFiles {
+			if len(name) > len(dir)+1 && name[:len(dir)+1] == dir+"/" {
+				names = append(names, name[len(dir)+1:])
 			}
 		}
 		return names, nil
 	}
 	removeDirFunc = func(path string) error {
 		verifYield()
-		for n := range w.disk {
-			if path == verifOBPath+"/"+version.Table(n) {
-				w.disk[n] = false
-				w.removed = append(w.removed, n)
+		if _, ok := table.VerifFiles[path]; ok {
+			delete(table.VerifFiles, path)
+			if fd := version.ParseFileName(path[len(verifOBPath)+1:]); fd != nil {
+				w.removed = append(w.removed, fd.FileNumber)
 			}
 		}
 		return nil
@@ -203,20 +150,24 @@ func verifOBSetup() (*verifOBWorld, *family) {
 	}
 	// history so far: two flushed level-0 files, and one table file left behind by a writer that died
 	e := version.NewEditLog(3)
-	for _, n := range []table.FileNumber{2, 4} {
-		e.Add(version.CreateNewFile(0, version.NewFileMeta(n, uint32(n), uint32(n), 50)))
-		w.disk[n] = true
+	for _, n := range []table.FileNumber{2, 4, 7} {
+		b, err := table.NewStoreBuilder(n, verifOBFile(n))
+		verifAssume(err == nil)
+		verifAssume(b.Add(uint32(n), []byte{byte(n)}) == nil)
+		verifAssume(b.Close() == nil)
+		if n != 7 { // 7 is an orphan: written by a writer that died before its commit
+			e.Add(version.CreateNewFile(0, version.NewFileMeta(n, b.MinKey(), b.MaxKey(), b.Size())))
+		}
 	}
 	cur, err := version.VerifCommit(w.current, e)
 	verifAssume(err == nil)
 	w.current = cur
-	w.disk[7] = true // orphan
 	return w, f
 }
 
 func verifOBCheck(w *verifOBWorld, what string) {
 	for _, fm := range w.current.GetAllFiles() {
-		verifAssert(w.disk[fm.GetFileNumber()], what)
+		verifAssert(w.onDisk(fm.GetFileNumber()), what)
 	}
 }
 
@@ -233,11 +184,11 @@ func verifC02ObsoleteVsWriters() {
 		flushed = sf.builder.FileNumber()
 		verifYield()
 		// the writer is unfinished: its file must still be there
-		verifAssert(w.disk[flushed], "the table of an unfinished writer is never deleted")
+		verifAssert(w.onDisk(flushed), "the table of an unfinished writer is never deleted")
 		err := fl.Commit()
 		verifAssert(err == nil, "flush commit returns")
 		flushDone = true
-		verifAssert(w.disk[flushed], "the table of a flush that was committed is on disk")
+		verifAssert(w.onDisk(flushed), "the table of a flush that was committed is on disk")
 		fl.Release()
 	}
 	compactor := func() {
@@ -248,7 +199,11 @@ func verifC02ObsoleteVsWriters() {
 	}
 	cleaner := func() { f.deleteObsoleteFiles() }
 	verifSpawn(flusher)
-	switch verifChoose("against", 3) {
+	variants := 2
+	if verifThorough() {
+		variants = 3 // all three parties at once
+	}
+	switch verifChoose("against", variants) {
 	case 0:
 		verifSpawn(compactor)
 	case 1:
@@ -265,7 +220,7 @@ func verifC02ObsoleteVsWriters() {
 	for _, key := range []uint32{2, 4, 100} {
 		has := false
 		for _, fm := range w.current.GetAllFiles() {
-			if fm.GetMinKey() <= key && key <= fm.GetMaxKey() && w.disk[fm.GetFileNumber()] {
+			if fm.GetMinKey() <= key && key <= fm.GetMaxKey() && w.onDisk(fm.GetFileNumber()) {
 				has = true
 			}
 		}
@@ -274,14 +229,22 @@ func verifC02ObsoleteVsWriters() {
 	// a clean-up when everything is quiet removes what nobody needs, and only that
 	f.deleteObsoleteFiles()
 	verifOBCheck(w, "a file of the current version is never deleted")
-	verifAssert(!w.disk[7], "a table nobody references is removed by the clean-up")
-	n := 0
-	for _, ok := range w.disk {
-		if ok {
-			n++
+	verifAssert(!w.onDisk(7), "a table nobody references is removed by the clean-up")
+	verifAssert(len(table.VerifFiles) == len(w.current.GetAllFiles()), "after a quiet clean-up the directory holds exactly the current version's tables")
+	// every committed key can be read from the tables of the current version (real readers)
+	for _, key := range []uint32{2, 4, 100} {
+		found := false
+		for _, fm := range w.current.GetAllFiles() {
+			r, err := table.VerifOpenReader(verifOBFile(fm.GetFileNumber()))
+			if err != nil {
+				continue
+			}
+			if v, err := r.Get(key); err == nil && len(v) == 1 {
+				found = true
+			}
 		}
+		verifAssert(found, "every committed key is readable from the current version's tables")
 	}
-	verifAssert(n == len(w.current.GetAllFiles()), "after a quiet clean-up the directory holds exactly the current version's tables")
 	verifReach("end")
 }
 
